@@ -2,11 +2,14 @@ package main
 
 import (
 	"bufio"
+	"encoding/base64"
+	"encoding/hex"
 	"encoding/json"
 	"fmt"
 	"math"
 	"os"
 	"reflect"
+	"strings"
 	"time"
 
 	hessian "github.com/vogo/gohessian"
@@ -15,6 +18,106 @@ import (
 	"verifharness/proj"
 	"verifharness/zoo"
 )
+
+// ---- fixed vectors: octets written by other implementations / by the specification text ----
+type jTraceVo struct {
+	Key   string
+	Value string
+}
+
+func (jTraceVo) HessianCodecName() string { return "hessian.TraceVo" }
+
+type jTraceData struct {
+	Seq  int32
+	Data jTraceVo
+}
+
+func (jTraceData) HessianCodecName() string { return "hessian.TraceData" }
+
+type jMessage struct {
+	Title string
+	Msg   []jTraceData
+}
+
+func (jMessage) HessianCodecName() string { return "hessian.Message" }
+
+type jCar struct {
+	Color string
+	Model string
+}
+
+func (jCar) HessianCodecName() string { return "example.Car" }
+
+type jColor struct{ Name string }
+
+func (jColor) HessianCodecName() string { return "example.Color" }
+
+type jLinked struct {
+	Head int32
+	Tail *jLinked
+}
+
+func (jLinked) HessianCodecName() string { return "LinkedList" }
+
+func hexb(s string) []byte {
+	var out []byte
+	for _, f := range strings.Fields(s) {
+		if strings.HasPrefix(f, "'") { // 'text'
+			out = append(out, []byte(strings.Trim(f, "'"))...)
+			continue
+		}
+		b, err := hex.DecodeString(f)
+		if err != nil {
+			panic(err)
+		}
+		out = append(out, b...)
+	}
+	return out
+}
+
+// fixtures: (expected Go value, octets).  The first is the message produced by the Java
+// implementation in tests/java-tests (MessageTest.java); the others are the examples of the
+// Hessian 2.0 serialization text as quoted in the repository's source comments.
+func fixtures() ([]interface{}, [][]byte) {
+	jm, _ := base64.StdEncoding.DecodeString("Qw9oZXNzaWFuLk1lc3NhZ2WSBXRpdGxlA21zZ2ACbTF6QxFoZXNzaWFuLlRyYWNlRGF0YZIDc2VxBGRhdGFh1eJAQw9oZXNzaWFuLlRyYWNlVm+SA2tleQV2YWx1ZWICazECdjFh1eJBYgJrMgJ2Mg==")
+	loop := &jLinked{Head: 1}
+	loop.Tail = loop
+	vals := []interface{}{
+		&jMessage{Title: "m1", Msg: []jTraceData{{Seq: 123456, Data: jTraceVo{"k1", "v1"}}, {Seq: 123457, Data: jTraceVo{"k2", "v2"}}}},
+		[]interface{}{int32(0), int32(1)},
+		"ahello",
+		[]int32{0, 1},
+		&jCar{Color: "red", Model: "corvette"},
+		&jCar{Color: "green", Model: "civic"},
+		[]interface{}{[]int32{0, 1}, []int32{2, 3, 4}},
+		&jColor{Name: "RED"},
+		map[interface{}]interface{}{int32(1): "fee", int32(16): "fie", int32(256): "foe"},
+		loop,
+		[]interface{}{&jColor{Name: "RED"}, &jColor{Name: "GREEN"}},
+	}
+	bs := [][]byte{
+		jm,
+		hexb("57 90 91 5a"),
+		hexb("52 00 01 'a' 53 00 05 'hello'"),
+		hexb("56 04 '[int' 92 90 91"),
+		hexb("43 0b 'example.Car' 92 05 'color' 05 'model' 4f 90 03 'red' 08 'corvette'"),
+		hexb("43 0b 'example.Car' 92 05 'color' 05 'model' 60 05 'green' 05 'civic'"),
+		hexb("7a 72 04 '[int' 90 91 73 90 92 93 94"),
+		hexb("43 0d 'example.Color' 91 04 'name' 60 03 'RED'"),
+		hexb("48 91 03 'fee' a0 03 'fie' c9 00 03 'foe' 5a"),
+		hexb("43 0a 'LinkedList' 92 04 'head' 04 'tail' 60 91 51 90"),
+		hexb("7a 43 0d 'example.Color' 91 04 'name' 60 03 'RED' 60 05 'GREEN'"),
+	}
+	return vals, bs
+}
+
+type mapThenLists struct {
+	M  zoo.NamedMap
+	L1 []int32
+	L2 []int32
+	L3 []string
+	L4 []string
+}
 
 type pairS struct {
 	S zoo.Small
@@ -27,6 +130,9 @@ func altValues(fam string, seed int64, tier string) []interface{} {
 	th := tier == "thorough"
 	g := gen.New(seed)
 	switch fam {
+	case "fixtures":
+		vs, _ := fixtures()
+		return vs
 	case "small": // exhaustive universe for C03: every encoding choice is enumerated by TLC
 		x := &zoo.Small{Name: "x", N: 1}
 		loop := &zoo.Node{Name: "l"}
@@ -51,6 +157,8 @@ func altValues(fam string, seed int64, tier string) []interface{} {
 			zoo.Slices{I32s: []int32{1, 2}, Ss: []string{"z"}},
 		}
 		sh := &zoo.Node{Name: "s"}
+		vs = append(vs, mapThenLists{M: zoo.NamedMap{"k": 1}, L1: []int32{1}, L2: []int32{2}, L3: []string{"a"}, L4: []string{"b"}},
+			[]interface{}{zoo.NamedMap{"k": 1}, []int32{1}, zoo.NamedMap{"j": 2}, []int32{2}})
 		vs = append(vs, &zoo.Node{Name: "d", A: sh, B: sh}, &zoo.Node{Name: "m", M: map[string]*zoo.Node{"k": sh}, L: []*zoo.Node{sh}})
 		return vs
 	case "rand": // seeded values; TLC draws the encoding choices (simulation)
@@ -78,11 +186,16 @@ func altValues(fam string, seed int64, tier string) []interface{} {
 		if th {
 			big = 70000
 		}
-		vs = append(vs, g.String(big, -1), g.String(2049, 2), make([]byte, big), make([]int32, 300),
+		vs = append(vs, g.String(33000, 0), g.String(big, -1), g.String(2049, 2), make([]byte, big), make([]int32, 300),
 			&zoo.Slices{Ss: []string{g.String(big/20, -1), "", g.String(40, 3)}})
 		return vs
 	case "c05s": // small objects: every definition variant x every definition index is enumerated
 		sh := &zoo.Node{Name: "shared"}
+		if tier != "thorough" {
+			return []interface{}{&zoo.Small{Name: "n", N: 9}, zoo.HI64{V: -5},
+				&zoo.Node{Name: "root", A: sh, B: sh, L: []*zoo.Node{sh}},
+				[]interface{}{zoo.Small{Name: "e0", N: 1}, &zoo.HI64{V: 7}, zoo.Small{Name: "e2", N: 2}}}
+		}
 		return []interface{}{&zoo.Small{Name: "n", N: 9}, zoo.HI64{V: -5}, zoo.Item{K: "k", V: 2},
 			&zoo.Node{Name: "root", A: sh, B: sh, L: []*zoo.Node{sh}},
 			[]interface{}{zoo.Small{Name: "e0", N: 1}, &zoo.HI64{V: 7}, zoo.Small{Name: "e2", N: 2}}}
@@ -117,6 +230,15 @@ func runAltValues(fam string, seed int64, tier, out string) {
 	defer f.Close()
 	w := bufio.NewWriter(f)
 	defer w.Flush()
+	if fam == "fixtures" {
+		_, bs := fixtures()
+		vf, _ := os.Create(out + "/vectors.ndjson")
+		for i, b := range bs {
+			j, _ := json.Marshal(proj.M{"vid": i, "b": proj.Octets(b), "dropped": [][]int{}})
+			vf.Write(append(j, '\n'))
+		}
+		vf.Close()
+	}
 	for i, v := range altValues(fam, seed, tier) {
 		_, nm := extractMaps(v)
 		P := proj.New(nm)
@@ -163,6 +285,10 @@ func runAltReplay(fam string, seed int64, tier, vectors, out string, shards, onl
 		}
 		v := vals[vec.Vid]
 		tm, nm := extractMaps(v)
+		if fam == "fixtures" { // the wire names the specification text uses for int arrays
+			tm["[int"] = reflect.TypeOf([]int32{})
+			nm["[]int32"] = "[int"
+		}
 		in := make([]byte, len(vec.B))
 		for i, x := range vec.B {
 			in[i] = byte(x)
